@@ -287,6 +287,12 @@ class C14:
                 opts = decorate(draw(schemas(nocase=bool(flags & F_NOCASE), allow_deprecated=True, allow_keystrval=False)), draw)
                 sc = opts
             toks = draw(gen_text.text_tokens(opts, flags, max_items=5, allow_unknown=False, bad_p=0.0))
+            if draw(st.integers(0, 3)) == 0:
+                # one string value for which the executor's value-parsing callback approves without handing back a value
+                vs = [k for k, t in enumerate(toks) if t[0] == "s" and t[1] in gen_text.STR_POOL]
+                if vs:
+                    k = draw(st.sampled_from(vs))
+                    toks = toks[:k] + [["s", "noresult", toks[k][2]]] + toks[k + 1:]
             cand = ["|".join(p) for p, o in walk(opts) if (o.get("cb", 0) & CB_VALID)]
             reg = [p for p in cand if draw(st.integers(0, 2)) == 0]
             return {"schema": sc, "flags": flags, "tokens": toks, "register": reg}
